@@ -108,7 +108,7 @@ def spy_step_result():
 def setup(E, shape, faults=False, max_ok_solves=None):
     P = boot.mod("params")
     Iterate = boot.mod("iterate").Iterate
-    user, spec = common.make_point_problem(E, shape["vars"], shape["cons"], fmt=shape.get("fmt", "coo"))
+    user, spec = common.make_point_problem(E, shape["vars"], shape["cons"], fmt=shape.get("fmt", "coo"), memo=shape.get("memo", False))
     n, m = spec["n"], spec["m"]
     params = P.Params(
         step_solver_type=P.StepSolverType[shape["solver"]],
@@ -442,3 +442,26 @@ def h_sequence(E, shape):
         for r in range(n + m):
             ok = land(ok, sum((D[r][c] * sv[c] for c in range(n + m)), 0.0) == F[r])
         E.prove(ok, "C14.consecutive_steps_solve_their_reference_systems", info=dict(step=k, newton=nt))
+
+
+def h_owned(E, shape):
+    """C11 at the step solvers: the matrices the user's callbacks returned (and keep) are unchanged
+    after two Newton steps (derivative update, active-set update, factorisation, solve) of each
+    formulation"""
+    N = boot.mod("newton")
+    nt = shape.get("newton", "Full")
+    ctx = setup(E, dict(shape, newton=nt, memo=True))
+    n, m = ctx["n"], ctx["m"]
+    Iterate = boot.mod("iterate").Iterate
+    method = N.newton_method(ctx["user"], ctx["params"], ctx["orig"], ctx["dt"], ctx["rho"])
+    lb, ub = ctx["spec"]["xl"], ctx["spec"]["xu"]
+    method.step(ctx["orig"])
+    x = []
+    for j in range(n):
+        v = E.real(f"x{j}")
+        E.assume(land(lb[j] <= v, v <= ub[j]))
+        x.append(v)
+    y = [E.real(f"y{i}") for i in range(m)]
+    method.step(Iterate(ctx["user"], ctx["params"], arr(x), arr(y)))
+    E.prove(len(ctx["spec"]["handed"]) > 0, "C11.step_solver_saw_callback_matrices")
+    common.check_snapshots(E, ctx["spec"]["handed"], "C11.step_solvers_leave_callback_results_unchanged")
